@@ -7,8 +7,8 @@ use crate::vec::set_to_u64;
 use serde_json::{json, Value};
 use simple_sds::bit_vector::BitVector;
 use simple_sds::int_vector::IntVector;
-use simple_sds::ops::{Access, BitVec, Push, Rank, Select, SelectZero, Vector, VectorIndex};
-use simple_sds::raw_vector::{AccessRaw, RawVector};
+use simple_sds::ops::{Access, BitVec, Pop, Push, Rank, Select, SelectZero, Vector, VectorIndex};
+use simple_sds::raw_vector::{AccessRaw, PopRaw, PushRaw, RawVector};
 use simple_sds::rl_vector::RLVector;
 use simple_sds::serialize::{self, Serialize};
 use simple_sds::sparse_vector::SparseVector;
@@ -49,16 +49,33 @@ fn ones_runs(d: &Value) -> (usize, Runs) {
 
 fn bytes_of(d: &Value) -> Vec<u8> { d["v"].as_array().unwrap().iter().map(|b| b.as_u64().unwrap() as u8).collect() }
 
+thread_local! {
+    /// 0: vectors are built directly; 1: they also go through a grow-and-shrink history (pushes crossing word boundaries,
+    /// then pops back to the described content) before they are serialized - the file must not depend on it.
+    pub static VEC_ROUTE: std::cell::Cell<u8> = std::cell::Cell::new(0);
+}
+
 fn make_raw(d: &Value) -> RawVector {
     let (len, runs) = ones_runs(d);
     let mut r = RawVector::with_len(len, false);
     for p in bv::positions(&runs) { r.set_bit(p, true); }
+    if VEC_ROUTE.with(|c| c.get()) == 1 {
+        unsafe { r.push_int(u64::MAX, 64); r.push_int(u64::MAX, 64); }
+        for _ in 0..5 { r.push_bit(true); }
+        for _ in 0..5 { r.pop_bit(); }
+        unsafe { r.pop_int(64); r.pop_int(64); }
+    }
     r
 }
 
 fn make_int(d: &Value) -> IntVector {
     let mut v = IntVector::new(d["w"].as_u64().unwrap() as usize).unwrap();
     for x in d["v"].as_array().unwrap() { v.push(set_to_u64(x)); }
+    if VEC_ROUTE.with(|c| c.get()) == 1 {
+        let extra = 130 / v.width() + 2;
+        for _ in 0..extra { v.push(u64::MAX); }
+        for _ in 0..extra { v.pop(); }
+    }
     v
 }
 
